@@ -339,13 +339,29 @@ func (k *kit) requestWith(client string, h http.Handler, edit func(*http.Request
 				panic(r)
 			}
 		}()
-		h.ServeHTTP(rec, req)
+		h.ServeHTTP(&finalRecorder{ResponseRecorder: rec}, req)
 	}()
 	res.Status = rec.Code
 	res.ServedBy = rec.Header().Get("X-Served-By")
 	res.Body = rec.Body.String()
 	res.Header = rec.Header()
 	return res
+}
+
+// finalRecorder records the final status like a real connection would: interim (1xx)
+// responses precede it and do not count as the response's status (this version of
+// httptest.ResponseRecorder would keep the first code it is given).
+type finalRecorder struct {
+	*httptest.ResponseRecorder
+	interim []int
+}
+
+func (f *finalRecorder) WriteHeader(code int) {
+	if code >= 100 && code < 200 && code != http.StatusSwitchingProtocols {
+		f.interim = append(f.interim, code)
+		return
+	}
+	f.ResponseRecorder.WriteHeader(code)
 }
 
 // requestMode sends a request whose backend behaviour is fixed for this request only
